@@ -15,18 +15,12 @@ package geo
 // angular radius d around a point of latitude phi (pole not inside) spans phi-d .. phi+d in latitude
 // and lambda -+ asin(sin d / cos phi) in longitude, wrapped into [-pi, pi]; when a pole is inside it
 // spans all longitudes. d = (dist + 0.07 m) / mean earth radius.
-//@ uf fsin(x float64) float64
-//@ uf fcos(x float64) float64
-//@ uf fasin(x float64) float64
 //@ assume func math.Sin(x)
 //@   pure
-//@   ensures result == fsin(x) || (isNaN(result) && isNaN(fsin(x)))
 //@ assume func math.Cos(x)
 //@   pure
-//@   ensures result == fcos(x) || (isNaN(result) && isNaN(fcos(x)))
 //@ assume func math.Asin(x)
 //@   pure
-//@   ensures result == fasin(x) || (isNaN(result) && isNaN(fasin(x)))
 //@ assume func math.Max(x, y)
 //@   pure
 //@   ensures implies(x > y, result == x) && implies(y > x, result == y) && implies(x == y, result == x || result == y)
@@ -36,7 +30,7 @@ package geo
 //@ spec rad(d float64) float64 = d * (math.Pi / 180)
 //@ spec deg(r float64) float64 = r * (180 / math.Pi)
 //@ spec capRadius(dist float64) float64 = (dist + 0.07) / 6371008.7714
-//@ spec capHalfWidth(lat float64, dist float64) float64 = fasin(fsin(capRadius(dist)) / fcos(rad(lat)))
+//@ spec capHalfWidth(lat float64, dist float64) float64 = math.Asin(math.Sin(capRadius(dist)) / math.Cos(rad(lat)))
 //@ spec poleFree(lat float64, dist float64) bool = rad(lat) - capRadius(dist) > rad(-90.0) && rad(lat) + capRadius(dist) < rad(90.0)
 //@ spec sameF(a float64, b float64) bool = a == b || (isNaN(a) && isNaN(b))
 //@ func RectFromPointDistance
